@@ -142,7 +142,7 @@ FlipIf(b, st) == IF b THEN (IF st = "+" THEN "-" ELSE IF st = "-" THEN "+" ELSE 
 SeqMin(sq) == Min({sq[k] : k \in DOMAIN sq})
 SeqMax(sq) == Max({sq[k] : k \in DOMAIN sq})
 PosToRelOK(os, lo, cb) == \A k \in DOMAIN os : LET q == lo + k - 1 o == os[k] IN
-     IF \E j \in DOMAIN cb : cb[j] = q THEN IsVal(o) /\ cb[o[2] + 1] = q /\ 0 <= o[2] /\ o[2] < Len(cb) ELSE Rejected(o)
+     IF \E j \in DOMAIN cb : cb[j] = q THEN IsVal(o) /\ 0 <= o[2] /\ o[2] < Len(cb) /\ cb[o[2] + 1] = q ELSE Rejected(o)
 RelToPosOK(os, lo, cb) == \A k \in DOMAIN os : LET i == lo + k - 1 o == os[k] IN
      IF 0 <= i /\ i < Len(cb) THEN IsVal(o) /\ o[2] = cb[i + 1] ELSE Rejected(o)
 VCrMap(ev) ==
